@@ -29,6 +29,19 @@ Theorem C20_accepted_reload_forgets_history_partial : forall env st1 st2 f,
 Proof. exact accepted_reload_forgets_history. Qed.
 Print Assumptions C20_accepted_reload_forgets_history_partial.
 
+(* The property over whole histories: after ANY sequence of edits none of which writes an invalid poll interval (guard of
+   KF-stale-config-scalar), the running gateway has in effect what a fresh start computes from the LAST edit that could
+   be loaded - whatever came before or after it, refused edits included - and the start configuration when none could. *)
+Theorem C20_history_equals_restart_partial : forall env fs st,
+  cs_poll_ok st = true -> forallb poll_ok_file fs = true ->
+  cs_poll_ok (run env st fs) = true /\
+  match last_accepted env fs with
+  | Some f => exists fr, fresh true true env f = Some fr /\ same_effect (run env st fs) fr
+  | None => same_effect (run env st fs) st
+  end.
+Proof. exact history_equals_restart. Qed.
+Print Assumptions C20_history_equals_restart_partial.
+
 (* FULL STATEMENT refuted on the code as it is: an unloadable edit with an invalid poll interval makes the next valid
    edit unloadable although a restart on that file succeeds (recorded finding KF-stale-config-scalar). *)
 Theorem C20_refuted_stale_scalar :
@@ -74,4 +87,16 @@ Example C20_example :
   let st := {| cs_mem := ["s9"]; cs_eff := ["s9"]; cs_roles := [("old", "*")]; cs_keys := ["k9"]; cs_poll_ok := true; cs_plug := ["p9"] |} in
   let f := {| f_loadable := true; f_poll := None; f_services := Some ["s1"; "s1"]; f_roles := Some [("user", "list")]; f_keys := Some ["k1"]; f_plug := ["p1"] |} in
   snd (load true true ["e1"] st f) = true /\ cs_eff (reload true true ["e1"] st f) = ["s1"; "e1"; "p1"] /\ cs_roles (reload true true ["e1"] st f) = [("user", "list")].
+Proof. vm_compute. repeat split; reflexivity. Qed.
+
+(* a history with a refused edit in the middle and one at the end: the second edit is the one in effect *)
+Example C20_history_example :
+  let st := {| cs_mem := ["s9"]; cs_eff := ["s9"]; cs_roles := []; cs_keys := []; cs_poll_ok := true; cs_plug := ["p9"] |} in
+  let f1 := {| f_loadable := true; f_poll := None; f_services := Some ["s1"]; f_roles := Some [("a", "*")]; f_keys := None; f_plug := ["p1"] |} in
+  let bad := {| f_loadable := false; f_poll := None; f_services := Some ["s7"]; f_roles := None; f_keys := None; f_plug := [] |} in
+  let f2 := {| f_loadable := true; f_poll := Some true; f_services := None; f_roles := Some [("b", "list")]; f_keys := Some ["k"]; f_plug := [] |} in
+  let empty := {| f_loadable := true; f_poll := None; f_services := Some []; f_roles := None; f_keys := None; f_plug := ["p2"] |} in
+  forallb poll_ok_file [f1; bad; f2; empty] = true /\ last_accepted ["e1"] [f1; bad; f2; empty] = Some empty /\
+  last_accepted [] [f1; bad; f2; empty] = Some f1 /\ cs_eff (run [] st [f1; bad; f2; empty]) = ["s1"; "p1"] /\
+  cs_roles (run [] st [f1; bad; f2; empty]) = [("a", "*")].
 Proof. vm_compute. repeat split; reflexivity. Qed.
